@@ -1,5 +1,6 @@
 import Bng.Proof.Nat
 import Bng.Proof.NatMonitor
+import Bng.Proof.NatKMap
 /-
   C10 — CGNAT port blocks never overlap and are always attributable (pkg/nat/manager.go, logging.go).
 
@@ -13,7 +14,10 @@ import Bng.Proof.NatMonitor
   history is a sequence of the code's critical sections: `addIp`, `allocPre` (the lookup of AllocateNAT
   under the read lock), `allocCommit` (the part of AllocateNAT under the pool lock), `alloc` (both, back
   to back), `dealloc`, and the read-only calls — so every interleaving of concurrent callers of
-  AllocateNAT/DeallocateNAT/AddPublicIP is one of the histories quantified over.
+  AllocateNAT/DeallocateNAT/AddPublicIP is one of the histories quantified over.  Histories also contain the calls
+  whose write to the kernel subscriber_nat map FAILS (`commitFail` / `allocFail`: the Put of AllocateNAT,
+  `deallocFail`: the Delete of DeallocateNAT) and `poke` (the caller writes through what it was handed): the
+  theorems above hold for them as for any other history; what is particular to them is stated at the end.
 -/
 namespace Bng.Spec.C10
 open Bng Bng.Cgnat AMap
@@ -169,6 +173,99 @@ theorem ledger_silent_on_model (c : Cfg) (hv : ValidCfg c) (ops : List Op) :
     ledgerRun c {} (init c) ops = [] :=
   ledgerRun_silent (s := init c) hv (inv_init c) (li_init c) ops
 
+/-! ### kernel-map failures, the kernel map itself, caller writes -/
+
+/-- A release whose kernel Delete fails releases nothing (finding C10-delete-failure-frees-block, fixed): the call
+    reports the error, the subscriber still holds exactly its block after it and through every continuation of the
+    history that does not release it successfully, and all that time no other subscriber holds a port of that
+    block — the kernel goes on translating with it, so it must not be handed to anybody else. -/
+theorem failed_delete_keeps_block (c : Cfg) (hv : ValidCfg c) (ops more : List Op) (k : Nat) (a : Alloc)
+    (h : AMap.lookup (run (init c) ops).allocs k = some a) (hmore : Op.dealloc k ∉ more) :
+    (step (run (init c) ops) (.deallocFail k)).2 = .kernErr ∧
+    AMap.lookup (run (init c) (ops ++ .deallocFail k :: more)).allocs k = some a ∧
+    ∀ k₂ a₂, k₂ ≠ k → AMap.lookup (run (init c) (ops ++ .deallocFail k :: more)).allocs k₂ = some a₂ →
+      a₂.pub = a.pub → a.portEnd.toNat < a₂.portStart.toNat ∨ a₂.portEnd.toNat < a.portStart.toNat := by
+  have hk : AMap.lookup (run (init c) (ops ++ .deallocFail k :: more)).allocs k = some a := by
+    rw [run_append]
+    show AMap.lookup (run (step (run (init c) ops) (.deallocFail k)).1 more).allocs k = some a
+    apply block_stable_run _ _ _ _ _ hmore
+    simp only [step]; rw [deallocFail_state]; exact h
+  refine ⟨by simp [step, deallocFail, h], hk, ?_⟩
+  intro k₂ a₂ hne h₂ hpub
+  exact blocks_disjoint c hv _ k k₂ a a₂ hk h₂ (fun e => hne e.symm) hpub.symm
+
+/-- An allocation whose kernel Put fails allocates nothing: table, pool counts and log are as before (only the
+    subscriber id stays taken), so no block is in force that the kernel does not know and no record names one. -/
+theorem failed_put_allocates_nothing (s : State) (k : Nat) :
+    (step s (.allocFail k)).1.allocs = s.allocs ∧ (step s (.allocFail k)).1.pool = s.pool ∧
+    (step s (.allocFail k)).1.log = s.log ∧
+    (step s (.commitFail k)).1.allocs = s.allocs ∧ (step s (.commitFail k)).1.pool = s.pool ∧
+    (step s (.commitFail k)).1.log = s.log :=
+  ⟨(allocFail_same s k).2.2.1, (allocFail_same s k).2.1, (allocFail_same s k).2.2.2,
+   (commitFail_same s k).2.2.1, (commitFail_same s k).2.1, (commitFail_same s k).2.2.2⟩
+
+/-- The kernel map mirrors the table: after ANY history (failed Puts and Deletes included) the subscriber_nat map
+    holds an entry for exactly the subscribers that hold an allocation, and it is that allocation's block. -/
+theorem kernel_mirrors_table (c : Cfg) (ops : List Op) (k : Nat) :
+    AMap.lookup (krun (kinit c) ops).kern k = (AMap.lookup (run (init c) ops).allocs k).map kblkOf := by
+  have h := mirror_run (mirror_init c) ops k
+  rw [krun_s] at h
+  exact h
+
+/-- …hence the blocks the kernel translates with never overlap: two kernel entries of different subscribers on one
+    public address have disjoint port ranges, after any history. -/
+theorem kernel_blocks_disjoint (c : Cfg) (hv : ValidCfg c) (ops : List Op) (k₁ k₂ : Nat) (b₁ b₂ : KBlk)
+    (h₁ : AMap.lookup (krun (kinit c) ops).kern k₁ = some b₁)
+    (h₂ : AMap.lookup (krun (kinit c) ops).kern k₂ = some b₂) (hk : k₁ ≠ k₂) :
+    kOverlap b₁ b₂ = false := by
+  rw [kernel_mirrors_table] at h₁ h₂
+  cases e₁ : AMap.lookup (run (init c) ops).allocs k₁ with
+  | none => rw [e₁] at h₁; simp at h₁
+  | some a₁ =>
+    cases e₂ : AMap.lookup (run (init c) ops).allocs k₂ with
+    | none => rw [e₂] at h₂; simp at h₂
+    | some a₂ =>
+      rw [e₁] at h₁; rw [e₂] at h₂
+      simp only [Option.map_some, Option.some.injEq] at h₁ h₂
+      subst h₁; subst h₂
+      by_cases hp : a₁.pub = a₂.pub
+      · have := blocks_disjoint c hv ops k₁ k₂ a₁ a₂ e₁ e₂ hk hp
+        unfold kOverlap kblkOf
+        simp only
+        rcases this with h | h
+        · have : decide (a₂.portStart.toNat ≤ a₁.portEnd.toNat) = false := by
+            rw [decide_eq_false_iff_not]; omega
+          rw [this, Bool.and_false]
+        · have : decide (a₁.portStart.toNat ≤ a₂.portEnd.toNat) = false := by
+            rw [decide_eq_false_iff_not]; omega
+          rw [this, Bool.and_false, Bool.false_and]
+      · simp [kOverlap, kblkOf, hp]
+
+/-- The defect, on the manager as it was before fix e3c019a (`krunOld`: a failing Delete was only logged and the
+    release went on): k1 is released while the kernel refuses the Delete, k2 is allocated — the kernel map then
+    translates BOTH subscribers with ports 10000-10999 of the same public address. -/
+theorem old_failed_delete_witness :
+    let x := krunOld (kinit (mkCfg 1000 10000 12999 true true)) [.addIp 1, .alloc 1, .deallocFail 1, .alloc 2]
+    (match AMap.lookup x.kern 1, AMap.lookup x.kern 2 with
+     | some b₁, some b₂ => kOverlap b₁ b₂
+     | _, _ => false) = true := by
+  decide
+
+/-- Caller writes are invisible: `poke` (the caller writes through the Allocation it was handed, over the address
+    slice it passed in, over what GetPoolStats returned — finding C10-returned-alias, fixed: the manager keeps and
+    hands out copies) changes nothing, so a history behaves exactly like the same history without the pokes. -/
+theorem poke_invisible (s : State) (ops : List Op) : run s (ops.filter (· != .poke)) = run s ops := by
+  induction ops generalizing s with
+  | nil => rfl
+  | cons op ops ih =>
+    by_cases h : op = .poke
+    · subst h
+      simp only [List.filter_cons, bne_self_eq_false, Bool.false_eq_true, if_false]
+      exact ih s
+    · have : (op != .poke) = true := by simpa using h
+      simp only [List.filter_cons, this, if_true]
+      exact ih (step s op).1
+
 /-! non-vacuity -/
 example : ValidCfg (mkCfg 0 0 0 true true) := mkCfg_valid _ _ _ _ _ (by decide)
 example : ValidCfg (mkCfg 1000 10000 12500 true false) := mkCfg_valid _ _ _ _ _ (by decide)
@@ -192,5 +289,18 @@ example : (trace (init (mkCfg 1000 10000 12999 true true))
   decide
 example : whoHeld (mkCfg 1000 10000 12999 true false) (run (init (mkCfg 1000 10000 12999 true false))
     [.addIp 7, .alloc 1, .alloc 2, .dealloc 1, .alloc 3]).log 7 10500 = [3] := by decide
+/-- the history of `old_failed_delete_witness` on the manager as it is: the failed release keeps k1's block, k2 gets the next -/
+example : (krun (kinit (mkCfg 1000 10000 12999 true true)) [.addIp 1, .alloc 1, .deallocFail 1, .alloc 2]).kern =
+    [(2, { pub := 1, lo := 11000, hi := 11999, sub := 2 }), (1, { pub := 1, lo := 10000, hi := 10999, sub := 1 })] := by
+  decide
+/-- the hypotheses of `failed_delete_keeps_block` are satisfiable -/
+example : AMap.lookup (run (init (mkCfg 1000 10000 12999 true true)) [.addIp 1, .alloc 1]).allocs 1 =
+    some { priv := 1, pub := 1, portStart := 10000, portEnd := 10999, poolIndex := 0, slot := 0, subId := 1 } := by decide
+/-- a failed Put takes the subscriber id and nothing else -/
+example : (trace (init (mkCfg 1000 10000 12999 true true)) [.addIp 1, .allocFail 1, .alloc 2, .alloc 1]).map (·.2) =
+    [.ok, .kernErr,
+     .alloc { priv := 2, pub := 1, portStart := 10000, portEnd := 10999, poolIndex := 0, slot := 0, subId := 2 },
+     .alloc { priv := 1, pub := 1, portStart := 11000, portEnd := 11999, poolIndex := 0, slot := 1, subId := 1 }] := by
+  decide
 
 end Bng.Spec.C10
